@@ -188,6 +188,7 @@ ENTRY = {
     'func.func_basis': [dict(X='f[m,d]', m='int:nb'), dict(X='f[m]', m='int:nb')],
     'func.func_diff_matrix': [dict(a='num', b='num', n='int:n'),
                               dict(a='num', b='num', n='int:n', m=L(2)),
+                              dict(a='len:L', b='len:L', n='int:n', m=L(3)),
                               dict(a='num', b='num', n='int:n', kind=L('sin'))],
     'func.func_diff_matrix_apply': [dict(A='tt', D='f[n,n]', kind=L('sin'))],
     'func.func_get': [dict(X='f[m,d]', A='tt', a='num', b='num'),
@@ -318,9 +319,12 @@ ENTRY = {
                                             n='int:n')],
 }
 
-DEFAULT_SPLIT = {'svd.matrix_svd': ['m <= n'],
-                 'tensors.const': ['abs(v) > 1.E-16'],
-                 'tensors.delta': ['abs(v) > 1.E-16']}
+# correlated case splits (semantic keys, not source text): all tests of the
+# function that compare the two integer names / the magnitude of the value
+# are decided together under each assumed case
+DEFAULT_SPLIT = {'svd.matrix_svd': [('order', 'm', 'n')],
+                 'tensors.const': [('magnitude', 'v')],
+                 'tensors.delta': [('magnitude', 'v')]}
 
 
 def build(spec, name, d, label=True):
@@ -398,6 +402,9 @@ def build(spec, name, d, label=True):
         return TUPLE([FLOAT(), FLOAT()])
     if spec == 'num':
         return FLOAT()
+    if spec.startswith('len:'):
+        from fractions import Fraction as _F
+        return FLOAT(deg={spec[4:]: _F(1)})   # a length (box bound)
     if spec == 'rel':
         from fractions import Fraction as _F
         return FLOAT(unit=_F(0))      # relative (dimensionless) accuracy
